@@ -14,7 +14,7 @@ RULE = (
 
 def strategy():
     return gen_prog.program(
-        weights={"PUT": 12, "PUT-invalid": 3, "POST": 1, "DELETE": 4, "DELETE-coll": 1, "MKCOL": 2, "PROPPATCH": 5, "GET": 1, "PROPFIND": 1, "REPORT": 2, "RECREATE": 1, "RESTART": 1},
+        weights={"PUT": 12, "PUT-invalid": 3, "POST": 1, "DELETE": 4, "DELETE-coll": 1, "MKCOL": 2, "PROPPATCH": 5, "GET": 1, "PROPFIND": 1, "REPORT": 2, "RECREATE": 1, "RESTART": 1, "READ": 4},
         min_steps=12,
         max_steps=26,
         cond_rate=5,
